@@ -62,6 +62,7 @@ func (q *reqSpec) asksClose() bool { return q.Close || (q.Proto == "HTTP/1.0" &&
 
 type plan struct {
 	Pipelined bool
+	Long      bool // a long keep-alive sequence of requests with large heads
 	Reqs      []*reqSpec
 	Ress      []*resSpec
 	ReqBytes  [][]byte
@@ -72,7 +73,10 @@ type plan struct {
 	Last      int // index of the first exchange after which the connection must close
 }
 
-var methods = []string{"GET", "GET", "GET", "HEAD", "POST", "POST", "PUT", "DELETE", "PATCH", "OPTIONS", "QUERYX"}
+// Methods are case-sensitive tokens (RFC 7231 4.1): the mixed- and lower-case
+// ones are extension methods in their own right ("head" is not HEAD).
+var methods = []string{"GET", "GET", "GET", "GET", "HEAD", "HEAD", "POST", "POST", "POST", "PUT", "PUT", "DELETE", "DELETE", "PATCH", "PATCH", "OPTIONS", "OPTIONS", "QUERYX",
+	"Patch", "get", "M-search", "head", "post", "Options", "PROPFIND", "mkCOL"}
 var statuses = []int{200, 200, 200, 201, 204, 206, 301, 304, 404, 500, 503}
 var reasons = map[int]string{200: "OK", 201: "Created", 204: "No Content", 206: "Partial Content", 301: "Moved Permanently", 304: "Not Modified", 404: "Not Found", 500: "Internal Server Error", 503: "Service Unavailable"}
 
@@ -323,6 +327,12 @@ func generate(rng *rand.Rand, c connCase, thorough bool) *plan {
 		n = 7 + rng.Intn(6)
 	}
 	p.Pipelined = rng.Intn(2) == 0
+	// long connection: 40-64 requests whose heads total well over a megabyte,
+	// nobody asking to close before the end
+	p.Long = rng.Intn(100) == 0
+	if p.Long {
+		n = 40 + rng.Intn(25)
+	}
 	if !c.TCP && rng.Intn(3) == 0 {
 		p.SegMode = 1 + rng.Intn(3)
 	}
@@ -410,7 +420,7 @@ func generate(rng *rand.Rand, c connCase, thorough bool) *plan {
 		}
 		// early answer: a body far larger than every buffer between client and
 		// origin (pipes 64 KiB, bufio 4 KiB), nobody asks to close
-		early := !c.TCP && c.Big && bigLeft > 0 && rng.Intn(14) == 0
+		early := !p.Long && !c.TCP && c.Big && bigLeft > 0 && rng.Intn(14) == 0
 		if early {
 			bigLeft--
 			q.Early = []string{"drain", "noread"}[rng.Intn(2)]
@@ -490,7 +500,27 @@ func generate(rng *rand.Rand, c connCase, thorough bool) *plan {
 		if rng.Intn(20) == 0 || (s.Framing == "eof" && rng.Intn(2) == 0) {
 			s.Close = true
 		}
-		if !early && rng.Intn(30) == 0 {
+		if p.Long {
+			early = false
+			q.Proto, q.Close, q.KeepAlive = "HTTP/1.1", false, false
+			s.Proto, s.Close = "HTTP/1.1", false
+			if s.Framing == "eof" {
+				s.Framing = "cl"
+			}
+			if q.Framing == "chunked" && q.Chunks == nil {
+				q.Chunks = chunking(rng, len(q.Body))
+			}
+			for k, nk := 0, 1+rng.Intn(2); k < nk; k++ {
+				vb := make([]byte, 12000+rng.Intn(20000))
+				for j := range vb {
+					vb[j] = valueAlpha[rng.Intn(len(valueAlpha))]
+				}
+				name := "X-Big-" + strconv.Itoa(k)
+				q.Headers = append(q.Headers, h1x.Header{Name: name, Value: string(vb)})
+				q.Raw = append(q.Raw, name+": "+string(vb))
+			}
+		}
+		if !early && !p.Long && rng.Intn(30) == 0 {
 			// the origin hangs up instead of answering; what the client gets for
 			// it is C03's subject, here only "not sent twice" and "the connection
 			// goes on" are judged
